@@ -82,6 +82,9 @@ structure GenCfg where
   /-- `true` (original emitter): set mode hands a nil pointer-to-scalar (or nil `*[]byte`) field to
       AssignBuf as the destination, which writes through it. -/
   setNilLeafPtrPanics : Bool := true
+  /-- `true` (original emitter): Loop on a root *map* type returns at once for the empty path
+      (only root slices are exempted from `if len(path) == 0 { return }`). -/
+  loopRootMapSkipped : Bool := true
 deriving Repr, Inhabited
 
 /-- The configuration that mirrors the tree as it is (flags flip when a `fix:` commit lands). -/
@@ -109,6 +112,7 @@ def GenCfg.fixed : GenCfg where
   setLostUpdate := false
   setNilMapStorePanics := false
   setNilLeafPtrPanics := false
+  loopRootMapSkipped := false
 
 /-- After the nested block of a non-basic node: the "special case to take value by pointer"
 (compiler.go:964-975). Not emitted for the root (`v != "x"`). -/
